@@ -85,21 +85,90 @@ func isNilIdent(e ast.Expr) bool {
 	return ok && id.Name == "nil"
 }
 
+// endsInReturn reports whether a block's last statement is a return.
+func endsInReturn(b *ast.BlockStmt) bool {
+	if b == nil || len(b.List) == 0 {
+		return false
+	}
+	_, ok := b.List[len(b.List)-1].(*ast.ReturnStmt)
+	return ok
+}
+
+// mentions reports whether the identifier name occurs in n.
+func fmentions(n ast.Node, name string) bool {
+	found := false
+	if n == nil {
+		return false
+	}
+	ast.Inspect(n, func(k ast.Node) bool {
+		if id, ok := k.(*ast.Ident); ok && id.Name == name {
+			found = true
+		}
+		return !found
+	})
+	return found
+}
+
+func fexprString(e ast.Expr) string {
+	switch x := e.(type) {
+	case *ast.Ident:
+		return x.Name
+	case *ast.SelectorExpr:
+		return fexprString(x.X) + "." + x.Sel.Name
+	case *ast.StarExpr:
+		return fexprString(x.X)
+	case *ast.ParenExpr:
+		return fexprString(x.X)
+	case *ast.UnaryExpr:
+		return fexprString(x.X)
+	}
+	return "?"
+}
+
+// errGuard reports whether st is an if-chain on `err` all of whose branches end in return (the
+// checks of the error a call just returned, in whichever of the equivalent shapes: one chain,
+// or several consecutive ifs).
+func errGuard(st ast.Stmt) bool {
+	s, ok := st.(*ast.IfStmt)
+	if !ok {
+		return false
+	}
+	for cur := s; cur != nil; {
+		if !fmentions(cur.Cond, "err") || !endsInReturn(cur.Body) {
+			return false
+		}
+		switch e := cur.Else.(type) {
+		case nil:
+			cur = nil
+		case *ast.IfStmt:
+			cur = e
+		default:
+			return false
+		}
+	}
+	return true
+}
+
 func analyseRenter(fset *token.FileSet, fn *ast.FuncDecl) renterFacts {
 	rf := renterFacts{name: fn.Name.Name, found: true}
 	var fundPos token.Pos
-	var fundGuard ast.Stmt // the if statement right after the Fund assignment
+	fundGuards := map[ast.Stmt]bool{} // the if statement(s) right after the Fund assignment that check its error
 	for i, st := range fn.Body.List {
 		if stmtCalls(st, "FundV2Transaction") {
 			fundPos = st.End()
+			for k := i + 1; k < len(fn.Body.List) && errGuard(fn.Body.List[k]); k++ {
+				fundGuards[fn.Body.List[k]] = true
+			}
+			// `if err != nil { return } else { rest }` is the same program
 			if i+1 < len(fn.Body.List) {
-				fundGuard = fn.Body.List[i+1]
+				if s, ok := fn.Body.List[i+1].(*ast.IfStmt); ok && fmentions(s.Cond, "err") && endsInReturn(s.Body) {
+					fundGuards[s] = true
+				}
 			}
 		}
 	}
-	var walk func(block []ast.Stmt, inFundGuard bool)
-	walk = func(block []ast.Stmt, inFundGuard bool) {
-		released := false
+	var walk func(block []ast.Stmt, inFundGuard, released bool)
+	walk = func(block []ast.Stmt, inFundGuard, released bool) {
 		for _, st := range block {
 			switch s := st.(type) {
 			case *ast.ExprStmt:
@@ -113,56 +182,72 @@ func analyseRenter(fset *token.FileSet, fn *ast.FuncDecl) renterFacts {
 				}
 				rf.rets = append(rf.rets, r)
 			case *ast.IfStmt:
+				guard := fundGuards[st]
 				for cur := s; cur != nil; {
-					walk(cur.Body.List, inFundGuard || ast.Stmt(s) == fundGuard)
+					// only the branches that test the error belong to the guard; a trailing
+					// plain else is the rest of the function
+					walk(cur.Body.List, inFundGuard || (guard && fmentions(cur.Cond, "err")), released)
 					switch e := cur.Else.(type) {
 					case *ast.IfStmt:
 						cur = e
 					case *ast.BlockStmt:
-						walk(e.List, inFundGuard || ast.Stmt(s) == fundGuard)
+						walk(e.List, inFundGuard, released)
 						cur = nil
 					default:
 						cur = nil
 					}
 				}
 			case *ast.BlockStmt:
-				walk(s.List, inFundGuard)
+				walk(s.List, inFundGuard, released)
 			case *ast.ForStmt:
-				walk(s.Body.List, inFundGuard)
+				walk(s.Body.List, inFundGuard, released)
 			case *ast.RangeStmt:
-				walk(s.Body.List, inFundGuard)
+				walk(s.Body.List, inFundGuard, released)
+			case *ast.SwitchStmt:
+				for _, c := range s.Body.List {
+					if cc, ok := c.(*ast.CaseClause); ok {
+						walk(cc.Body, inFundGuard, released)
+					}
+				}
 			}
 		}
 	}
-	walk(fn.Body.List, false)
+	walk(fn.Body.List, false, false)
+
+	// names do not matter: an "id value" is a call of a method ID() or a variable assigned from
+	// one; the "locally signed contract" is the expression X of `X.RenterSignature = ….SignHash(…)`
+	idVars := map[string]bool{}
+	local := map[string]bool{}
 	ast.Inspect(fn.Body, func(n ast.Node) bool {
-		switch x := n.(type) {
-		case *ast.BinaryExpr:
-			if x.Op == token.NEQ {
-				_, a, ok1 := callSel(x.X)
-				_, b, ok2 := callSel(x.Y)
-				if ok1 && ok2 && a == "ID" && b == "ID" {
-					rf.comparesTxnID = true
+		if a, ok := n.(*ast.AssignStmt); ok && len(a.Lhs) == 1 && len(a.Rhs) == 1 {
+			if _, nm, ok := callSel(a.Rhs[0]); ok {
+				if id, isIdent := a.Lhs[0].(*ast.Ident); isIdent && nm == "ID" {
+					idVars[id.Name] = true
+				}
+				if sel, isSel := a.Lhs[0].(*ast.SelectorExpr); isSel && nm == "SignHash" && sel.Sel.Name == "RenterSignature" {
+					local[fexprString(sel.X)] = true
 				}
 			}
-			// form compares two precomputed ids
-			if x.Op == token.NEQ {
-				if l, ok := x.X.(*ast.Ident); ok {
-					if r, ok := x.Y.(*ast.Ident); ok && l.Name == "formationTxnID" && r.Name == "hostFormationTxnID" {
-						rf.comparesTxnID = true
-					}
-				}
+		}
+		return true
+	})
+	isID := func(e ast.Expr) bool {
+		if _, nm, ok := callSel(e); ok && nm == "ID" {
+			return true
+		}
+		id, ok := e.(*ast.Ident)
+		return ok && idVars[id.Name]
+	}
+	ast.Inspect(fn.Body, func(n ast.Node) bool {
+		switch x := n.(type) {
+		case *ast.IfStmt:
+			// the comparison must actually guard an error return
+			if b, ok := x.Cond.(*ast.BinaryExpr); ok && b.Op == token.NEQ && isID(b.X) && isID(b.Y) && endsInReturn(x.Body) {
+				rf.comparesTxnID = true
 			}
 		case *ast.KeyValueExpr:
 			if k, ok := x.Key.(*ast.Ident); ok && k.Name == "Revision" {
-				switch v := x.Value.(type) {
-				case *ast.Ident:
-					rf.returnsLocalContract = v.Name == "fc"
-				case *ast.SelectorExpr:
-					if id, ok := v.X.(*ast.Ident); ok {
-						rf.returnsLocalContract = id.Name == "renewal" && v.Sel.Name == "NewContract"
-					}
-				}
+				rf.returnsLocalContract = local[fexprString(x.Value)]
 			}
 		}
 		return true
@@ -181,59 +266,152 @@ type hostFacts struct {
 	detachesHostInputs                                                             bool
 }
 
+// releaseGuard analyses a deferred closure: does it call ReleaseInputs, on which flag does the
+// call depend, and is it executed exactly when that flag is false?  Recognised shapes:
+//
+//	if flag { return }; …; ReleaseInputs(…)        if !flag { ReleaseInputs(…) }
+//	if flag == false { ReleaseInputs(…) }           if flag { … } else { ReleaseInputs(…) }
+func releaseGuard(fl *ast.FuncLit) (releases bool, flag string, guarded bool, args []ast.Expr) {
+	isRelease := func(st ast.Stmt) ([]ast.Expr, bool) {
+		if es, ok := st.(*ast.ExprStmt); ok {
+			if c, ok := es.X.(*ast.CallExpr); ok {
+				if _, nm, ok := callSel(c); ok && nm == "ReleaseInputs" {
+					return c.Args, true
+				}
+			}
+		}
+		return nil, false
+	}
+	blockReleases := func(b *ast.BlockStmt) ([]ast.Expr, bool) {
+		if b == nil {
+			return nil, false
+		}
+		for _, st := range b.List {
+			if a, ok := isRelease(st); ok {
+				return a, true
+			}
+		}
+		return nil, false
+	}
+	negated := func(e ast.Expr) (string, bool) { // !flag, flag == false, false == flag
+		switch x := e.(type) {
+		case *ast.ParenExpr:
+			return "", false
+		case *ast.UnaryExpr:
+			if id, ok := x.X.(*ast.Ident); ok && x.Op == token.NOT {
+				return id.Name, true
+			}
+		case *ast.BinaryExpr:
+			if x.Op == token.EQL {
+				l, lok := x.X.(*ast.Ident)
+				r, rok := x.Y.(*ast.Ident)
+				if lok && rok && r.Name == "false" {
+					return l.Name, true
+				}
+				if lok && rok && l.Name == "false" {
+					return r.Name, true
+				}
+			}
+		}
+		return "", false
+	}
+	earlyReturnOn := ""
+	for _, st := range fl.Body.List {
+		if a, ok := isRelease(st); ok {
+			releases, args = true, a
+			if earlyReturnOn != "" {
+				flag, guarded = earlyReturnOn, true
+			}
+			return
+		}
+		if s, ok := st.(*ast.IfStmt); ok {
+			if id, ok := s.Cond.(*ast.Ident); ok {
+				if endsInReturn(s.Body) && len(s.Body.List) == 1 && s.Else == nil {
+					earlyReturnOn = id.Name
+					continue
+				}
+				if eb, ok := s.Else.(*ast.BlockStmt); ok {
+					if a, ok := blockReleases(eb); ok {
+						if _, also := blockReleases(s.Body); !also {
+							return true, id.Name, true, a
+						}
+					}
+				}
+			}
+			if name, ok := negated(s.Cond); ok && s.Else == nil {
+				if a, ok := blockReleases(s.Body); ok {
+					return true, name, true, a
+				}
+			}
+			// a release somewhere else inside an if: present but not recognisably guarded
+			found := false
+			ast.Inspect(s, func(k ast.Node) bool {
+				if c, ok := k.(*ast.CallExpr); ok {
+					if _, nm, ok := callSel(c); ok && nm == "ReleaseInputs" {
+						found, args = true, c.Args
+					}
+				}
+				return true
+			})
+			if found {
+				return true, "", false, args
+			}
+		}
+	}
+	return
+}
+
 func analyseHost(fset *token.FileSet, fn *ast.FuncDecl) hostFacts {
 	hf := hostFacts{name: fn.Name.Name, found: true}
-	txnVar := "renewalTxn"
-	if fn.Name.Name == "handleRPCFormContract" {
-		txnVar = "formationTxn"
-	}
-	type ev struct {
-		pos  token.Pos
-		kind string
-	}
-	var evs []ev
-	var fundIdx = -1
+	// names do not matter: the transaction is what FundV2Transaction funds (`&T`), the set is the
+	// second result of V2TransactionSet, the flag is what guards the deferred release
+	txnVar, setVar, flagVar := "", "", ""
+	fundIdx := -1
 	for i, st := range fn.Body.List {
 		if stmtCalls(st, "FundV2Transaction") {
 			fundIdx = i
 		}
 	}
-	var fundEnd, deferPos token.Pos
-	if fundIdx >= 0 {
-		fundEnd = fn.Body.List[fundIdx].End()
+	ast.Inspect(fn.Body, func(n ast.Node) bool {
+		switch x := n.(type) {
+		case *ast.CallExpr:
+			if _, nm, ok := callSel(x); ok && nm == "FundV2Transaction" && len(x.Args) > 0 {
+				txnVar = fexprString(x.Args[0])
+			}
+		case *ast.AssignStmt:
+			if len(x.Rhs) == 1 && len(x.Lhs) >= 2 {
+				if _, nm, ok := callSel(x.Rhs[0]); ok && nm == "V2TransactionSet" {
+					setVar = fexprString(x.Lhs[1])
+				}
+			}
+		case *ast.DeferStmt:
+			if fl, ok := x.Call.Fun.(*ast.FuncLit); ok {
+				if rel, flag, _, _ := releaseGuard(fl); rel && flag != "" {
+					flagVar = flag
+				}
+			}
+		}
+		return true
+	})
+	type ev struct {
+		pos  token.Pos
+		kind string
 	}
+	var evs []ev
+	var deferPos token.Pos
 	ast.Inspect(fn.Body, func(n ast.Node) bool {
 		switch x := n.(type) {
 		case *ast.DeferStmt:
 			if fl, ok := x.Call.Fun.(*ast.FuncLit); ok {
-				releases, guarded, txn := false, false, false
-				ast.Inspect(fl.Body, func(m ast.Node) bool {
-					switch y := m.(type) {
-					case *ast.CallExpr:
-						if _, nm, ok := callSel(y); ok && nm == "ReleaseInputs" {
-							releases = true
-							for _, a := range y.Args {
-								ast.Inspect(a, func(k ast.Node) bool {
-									if id, ok := k.(*ast.Ident); ok && id.Name == txnVar {
-										txn = true
-									}
-									return true
-								})
-							}
-						}
-					case *ast.IfStmt:
-						if id, ok := y.Cond.(*ast.Ident); ok && id.Name == "broadcast" && len(y.Body.List) == 1 {
-							if _, ok := y.Body.List[0].(*ast.ReturnStmt); ok {
-								guarded = true
-							}
-						}
-					}
-					return true
-				})
-				if releases {
+				if rel, _, guarded, args := releaseGuard(fl); rel {
 					evs = append(evs, ev{x.Pos(), "defer"})
 					deferPos = x.Pos()
-					hf.deferGuarded, hf.deferReleasesTxn = guarded, txn
+					hf.deferGuarded = guarded
+					for _, a := range args {
+						if txnVar != "" && fmentions(a, txnVar) {
+							hf.deferReleasesTxn = true
+						}
+					}
 				}
 				return false
 			}
@@ -246,7 +424,7 @@ func analyseHost(fset *token.FileSet, fn *ast.FuncDecl) hostFacts {
 			case nm == "FundV2Transaction":
 				evs = append(evs, ev{x.Pos(), "fund"})
 			case nm == "AddV2PoolTransactions" && len(x.Args) == 2:
-				if id, ok := x.Args[1].(*ast.Ident); ok && (id.Name == "formationSet" || id.Name == "renewalSet") {
+				if setVar != "" && fexprString(x.Args[1]) == setVar {
 					evs = append(evs, ev{x.Pos(), "pool"})
 				}
 			case nm == "AddV2Contract" || nm == "RenewV2Contract":
@@ -263,36 +441,34 @@ func analyseHost(fset *token.FileSet, fn *ast.FuncDecl) hostFacts {
 				}
 			}
 		case *ast.AssignStmt:
-			if len(x.Lhs) == 1 {
-				if id, ok := x.Lhs[0].(*ast.Ident); ok && id.Name == "broadcast" && x.Tok == token.ASSIGN {
+			if len(x.Lhs) == 1 && len(x.Rhs) == 1 {
+				if id, ok := x.Lhs[0].(*ast.Ident); ok && flagVar != "" && id.Name == flagVar && x.Tok == token.ASSIGN {
 					hf.broadcastAssignments++
 					if v, ok := x.Rhs[0].(*ast.Ident); ok && v.Name == "true" {
 						evs = append(evs, ev{x.Pos(), "set"})
 					}
 				}
-				if s, ok := x.Lhs[0].(*ast.SelectorExpr); ok && s.Sel.Name == "SiacoinInputs" {
-					if id, ok := s.X.(*ast.Ident); ok && id.Name == txnVar {
-						if _, ok := x.Rhs[0].(*ast.SliceExpr); ok {
-							hf.detachesHostInputs = true
-						}
+				if s, ok := x.Lhs[0].(*ast.SelectorExpr); ok && s.Sel.Name == "SiacoinInputs" && txnVar != "" && fexprString(s.X) == txnVar {
+					if _, ok := x.Rhs[0].(*ast.SliceExpr); ok {
+						hf.detachesHostInputs = true
 					}
 				}
 			}
 		}
 		return true
 	})
-	// returns between the Fund statement and the defer, outside the if-chain that guards Fund
+	// returns between the Fund statement and the defer, outside the checks of Fund's own error
 	if fundIdx >= 0 && deferPos != token.NoPos {
+		guarding := true
 		for i := fundIdx + 1; i < len(fn.Body.List); i++ {
 			st := fn.Body.List[i]
 			if st.Pos() >= deferPos {
 				break
 			}
-			if i == fundIdx+1 {
-				if _, ok := st.(*ast.IfStmt); ok {
-					continue // `if errors.Is(err, …) { return } else if err != nil { return }`
-				}
+			if guarding && errGuard(st) {
+				continue
 			}
+			guarding = false
 			ast.Inspect(st, func(n ast.Node) bool {
 				if _, ok := n.(*ast.ReturnStmt); ok {
 					hf.returnsBetweenFundAndDefer++
@@ -301,7 +477,6 @@ func analyseHost(fset *token.FileSet, fn *ast.FuncDecl) hostFacts {
 			})
 		}
 	}
-	_ = fundEnd
 	// rank the events by position
 	for i := 0; i < len(evs); i++ {
 		for j := i + 1; j < len(evs); j++ {
